@@ -298,4 +298,40 @@ def main(tier):
                         "NegateRoundingMode, ApplyUnsignedRoundingMode) are correct",
                         "is_exact / result_floor / result_ceil / is_even_cardinal mean what their names say "
                         "(their arithmetic is not decided here)"]
+    # R11: to-string paths skip the rounding kernel only when rounding is the identity
+    rule = "R11.rounding-skipped-only-when-identity"
+    run.rule(rule, "a to-string operation returns without calling a rounding kernel only on paths that decided BOTH the resolved "
+                   "unit == nanosecond AND the increment == 1 (rounding to 1 ns is the identity; 10 ns or 100 ns is not)")
+    CORE = "temporal_rs::builtins::core::"
+    for suffix in ("duration::Duration::as_temporal_string", "datetime::PlainDateTime::to_ixdtf_string",
+                   "time::PlainTime::to_ixdtf_string", "instant::Instant::to_ixdtf_string_with_provider",
+                   "zoneddatetime::ZonedDateTime::to_ixdtf_string_with_provider"):
+        f = fx["temporal_rs"].fn(CORE + suffix)
+        if f is None:
+            run.anchor_missing(rule, suffix, "function not found")
+            continue
+        ev = H.Evaluator(fx)
+        ev.inline = lambda p: p.startswith("temporal_rs::error::")
+        try:
+            paths = ev.paths(f, [H.Sym("param", (p["name"],)) for p in f.params], max_paths=300)
+        except H.Budget:
+            run.ok(rule, suffix, "too many paths: not decided", f.loc, nontrivial=False)
+            continue
+        succ = skipped = bad = 0
+        why = None
+        for dec, res, tr in paths:
+            if isinstance(res, H.Panic) or is_err(res):
+                continue
+            succ += 1
+            if any("::round" in str(c.parts[0]) for c in tr):
+                continue
+            skipped += 1
+            held = [c for c, ch in dec if ch is True and not c.startswith("||[")]
+            if not (any("Unit::Nanosecond" in c for c in held) and any(".increment, " in c and ("RoundingIncrement(1)" in c or "::ONE" in c) for c in held)):
+                bad += 1
+                why = why or [c[:80] for c in held][-2:]
+        run.check(succ > 0 and bad == 0, rule, suffix, "%d success path(s), %d without rounding, all behind unit == ns && "
+                  "increment == 1" % (succ, skipped),
+                  "%s: %d success path(s) skip the rounding kernel without having decided `smallest_unit == Nanosecond && "
+                  "increment == ONE` (decided only %s)" % (f.name, bad, why), f.loc)
     return run.finish(EXPLANATION)
